@@ -16,16 +16,21 @@ from ..core import Batch, cbool, clist, copt, cpair, cstr
 ID = "C12"
 LEVEL = "proof"
 PROP_FILE = "Properties/C12.v"
-PROOF_FILES = ["Proofs/LabelProofs.v", "Model/Label.v", "Model/Cli.v", "Gen/CliTable.v"]
+PROOF_FILES = ["Proofs/LabelProofs.v", "Model/Label.v", "Model/Cli.v", "Gen/CliTable.v", "Model/CliRun.v", "Proofs/CliRunProofs.v"]
 TRUSTED = [
     "model Model/Label.v of ReconciliationInput.label_internal and get_species_mapping (names as Coq strings, a tree as its pre-order name list plus its shape)",
     "model Model/Cli.v of the dispatch decision of cli/reconcile.py:call_algorithm",
     "translator/cli_table.py (fail-closed ast translator; its output Gen/CliTable.v is plain data re-checked by the kernel on every run)",
+    "model Model/CliRun.v of the whole `reconcile` command on binary inputs (read_input -> label_internal -> dispatch -> solver models of C01-C03/C07 -> "
+    "'Minimum cost' = evaluator on one result -> one to_dict per result through Model/Serial.v); the association key -> solver function is written in the model "
+    "(the generated table only carries the annotations) and is tied to the code by the cli_pipeline batch",
 ]
 ASSUMES = [
     "ete3: Newick reader/writer (format 1 / 8), traverse('preorder') order, `name in tree` = some node carries that name, iteration over a tree = its leaves",
     "names are printable ASCII (str.lower modelled on A-Z only)",
     "process-level behaviour (exit status, stdout/stderr, json, argparse, draw with the stub TeX measurer) is sampled, not proved",
+    "pipeline theorems (Proofs/CliRunProofs.v): ete3's Newick writer/reader = the Gallina pair of C11 (print_tree/parse_tree), json.dump/load = identity on the dictionaries, "
+    "integer unit costs (transfer cost possibly infinite), binary trees; gene families are numbered by first occurrence, and the evaluator is proved independent of the numbering",
 ]
 RULE = ("label cases: rose trees (arity 1-4) whose nodes are unnamed / 'NoName' / named, names drawn from O#/S# look-alikes (O3, O01, o1, S1 ...) "
         "and ordinary names, with and without duplicates; non-trivial = at least one unnamed node and at least one given name of the form <prefix><digits>; "
@@ -42,9 +47,15 @@ LEVEL_TEXT = ("Machine-checked for trees of any size and shape: label_internal t
               "with strictly increasing, minimal indices in pre-order, all names pairwise distinct when the given ones are, and is idempotent; get_species_mapping picks the first "
               "underscore-terminated prefix that names a species (case-insensitive); over the table regenerated from cli/reconcile.py the seven documented keys are present, every "
               "super-reconciliation algorithm without syntenies is refused and every other combination runs. "
-              "Sampled only (correspondence, not proof): exit status, JSON lines, parse-back cost = printed cost, all >= any, draw accepting every object, dispatch outcome = model.")
+              "For the pipeline model of the whole command on binary inputs (Model/CliRun.v, Proofs/CliRunProofs.v): every written object parses back (C11 reader) to a solution on the "
+              "re-read input whose evaluated cost is the printed minimum cost (any unit costs with a non-negative transfer cost; the evaluator's numbering of the families is irrelevant); "
+              "inside the coherent region of each DP solver everything written under --solutions any is written under --solutions all and both print the same minimum; both trees of every "
+              "object are the label_internal images of the input trees; a super-reconciliation algorithm without syntenies ends in Error (status 1, nothing written). "
+              "Sampled only (correspondence, not proof): that the real tool behaves as the pipeline model (exit status, printed minimum, set of JSON objects - batch cli_pipeline), "
+              "draw accepting every object, polytomous inputs end to end.")
 LEVEL_NOTE = ("Trusted: Coq kernel; the hand-written models and the translator (differential testing on the explored domain); ete3/json/argparse behaviour. "
-              "The cost and all/any clauses are corollaries of C05/C06/C11 at the model level and are only sampled here. Theorems are about the repaired read_input (fix D7).")
+              "The cost and all/any clauses are theorems about the pipeline model (composition of C01-C03/C05/C07, C06 and C11), tied to the real command by the cli_pipeline batch. "
+              "Theorems are about the repaired read_input (fix D7).")
 
 SUPER_ALGOS = ("base_spfs", "ext_spfs", "base_uspfs", "superdtl")     # documented super-reconciliation algorithms
 PLAIN_ALGOS = ("exh", "lca", "thl")
@@ -56,6 +67,11 @@ def pre_build(ctx):
     from translator import cli_table
     changed = cli_table.regenerate(core.REPO)
     ctx.notes.append("Gen/CliTable.v " + ("regenerated (content changed)" if changed else "regenerated: unchanged"))
+    # the pipeline model and its theorems (re-checked over the regenerated table)
+    ok, out = core.build_targets([f for f in PIPE_FILES if (core.COQ / f).exists()])
+    _STATE["pipe_ok"] = ok
+    if not ok:
+        ctx.notes.append("Model/CliRun.v / Proofs/CliRunProofs.v do not build: " + out[-800:])
 
 
 # ---------------------------------------------------------------------------
@@ -928,6 +944,30 @@ def gen_pipeline_case(rng, k, algo):
             "algo": algo, "costs": cv, "orient": rng.choice(["horizontal", "vertical"]), "mode": "inproc"}
 
 
+def malform(rng, c):
+    """break a generated case in one of the ways a hand-written input file goes wrong (outside the property's domain:
+    the comparison with the model still applies, the oracle does not)"""
+    c = json.loads(json.dumps(c))
+    kinds = ["unknown_species", "unmapped_leaf"]
+    if c["syn"] is not None:
+        kinds += ["leaf_without_synteny", "empty_synteny", "unknown_synteny_key"]
+    kind = rng.choice(kinds)
+    leaf = rng.choice(list(c["leaf_species"]))
+    c["omitted"] = False
+    if kind == "unknown_species":
+        c["leaf_species"][leaf] = "Nowhere"
+    elif kind == "unmapped_leaf":
+        del c["leaf_species"][leaf]
+    elif kind == "leaf_without_synteny":
+        del c["syn"][leaf]
+    elif kind == "empty_synteny":
+        c["syn"][leaf] = []
+    else:
+        c["syn"]["ghost_9"] = ["f"]
+    c["malformed"] = kind
+    return c
+
+
 def _enc_unit(v):
     if isinstance(v, str) or v == float("inf"):
         return "PInf"
@@ -1005,11 +1045,8 @@ def enc_pipe_out(c, res):
 def pipeline_batches(ctx):
     rng = ctx.rng
     quick = ctx.quick()
-    ok, out = core.build_targets([f for f in PIPE_FILES if (core.COQ / f).exists()])
-    if not ok:
-        # the pipeline model (or its proofs) no longer builds, e.g. over a regenerated dispatch table; Properties/C12.v
-        # then fails too and main.py runs every batch in oracle-only mode
-        ctx.notes.append("cli_pipeline: Model/CliRun.v / Proofs/CliRunProofs.v do not build: " + out[-600:])
+    # Model/CliRun.v and Proofs/CliRunProofs.v are built by pre_build; when they no longer build (e.g. over a regenerated
+    # dispatch table) Properties/C12.v fails too and main.py runs every batch in oracle-only mode
     per_algo = 45 if quick else 500
     pcases = []
     k = 0
@@ -1028,6 +1065,13 @@ def pipeline_batches(ctx):
                  "syn": readme["syn"] if with_syn else None, "algo": algo, "costs": {}, "orient": "horizontal", "mode": "inproc"})))
             k += 1
 
+    # malformed files: the exception paths of the model
+    for algo in PLAIN_ALGOS + SUPER_ALGOS:
+        for _ in range(4 if quick else 40):
+            c = malform(rng, gen_pipeline_case(rng, k, algo))
+            pcases.append(c)
+            k += 1
+
     seen = {"endings": {}, "objects_compared": 0, "max_objects_all": 0}
     ctx.dist["cli_pipeline_observed"] = seen
 
@@ -1044,6 +1088,8 @@ def pipeline_batches(ctx):
     def oracle_pipe(c, res):
         if not (is_binary(c["obj"]) and is_binary(c["sp"])):
             return True, "polytomy: outside the pipeline model"
+        if c.get("malformed"):
+            return True, f"malformed input file ({c['malformed']}): outside the property's domain"
         return oracle_cli(c, res)
 
     ctx.dist["cli_pipeline"] = {
@@ -1054,6 +1100,7 @@ def pipeline_batches(ctx):
         "with_unnamed_ancestor": sum(1 for c in pcases if any(unnamed(a) for a in preorder(c["obj"]) + preorder(c["sp"]))),
         "with_cost_options": sum(1 for c in pcases if c["costs"]),
         "infinite_transfer_cost": sum(1 for c in pcases if isinstance(c["costs"].get("hgt"), str)),
+        "malformed": sum(1 for c in pcases if c.get("malformed")),
     }
     yield Batch(
         name="cli_pipeline", header=PIPE_HEADER, run="run_pipe", eqb="pipe_eqb",
